@@ -5,8 +5,8 @@
 // VF-LEVEL: bounded-exhaustive differential check of the real classes against path enumeration; no sampling. Tolerances are rounding bounds (64*L*n*eps relative to max(1,|logL|) for values, 1024*L^2*n^2*eps and 1024*L^3*n^2*eps for first and second derivatives); history answers are compared exactly.
 // VF-ASSUME: the harness-side HmmStateAlphabet/HmmTransitionMatrix/HmmEmissionProbabilities implementations (C13_hmm.hpp) follow the interfaces' contracts;; long double path enumeration is the definition of the likelihood (start vector pi.P as coded, equal to pi for a stationary pi);; g++/libstdc++ long double (x87 extended) arithmetic
 // VF-TECHNIQUE: exhaustive enumeration of finite model families and operation histories on the real code against a long-double path-enumeration reference and fresh-object differential oracle
-// VF-BUDGET_QUICK: 400
-// VF-BUDGET_THOROUGH: 1500
+// VF-BUDGET_QUICK: 900
+// VF-BUDGET_THOROUGH: 3000
 #include "vf.hpp"
 #include "common.hpp"
 #include "C13_hmm.hpp"
@@ -609,8 +609,10 @@ int main(int argc, char** argv) {
   // chunk size 1 of the low-memory algorithm (kept in small spaces of its own: every case of length >= 2 aborts on the unchanged tree)
   add("chunk1", 1, 3, 2, 0, 1, true); add("chunk1", 2, 2, 2, 0, 1, true); add("chunk1", 2, 3, 2, 0, 1, true);
   if (th) { add("chunk1", 2, 4, 2, 0, 1, true); add("chunk1", 3, 2, 2, 0, 1, true); }
-  for (auto& f : fams) famSpace(R, f);
-
+  // order of execution: the small spaces first (chunk size 1, built-in models, histories), so that a global deadline on a busy
+  // machine cuts into the largest enumerations only
+  auto small = [](const Fam& f) { uint64_t a, b, c; return f.kind == "chunk1" || famSize(f, a, b, c) <= 5000; };
+  for (auto& f : fams) if (small(f)) famSpace(R, f);
   builtinSpaces(R, th);
 
   int depth = th ? 4 : 3;
@@ -622,6 +624,8 @@ int main(int argc, char** argv) {
     Mod mod = (Mod)m; ModSys proto(mod);
     R.explore(std::string("history:model-") + MODN[m] + ":n2", 64, proto.nops(), [mod] { return std::unique_ptr<ModSys>(new ModSys(mod)); }, 10.0);
   }
+
+  for (auto& f : fams) if (!small(f)) famSpace(R, f);
 
   R.expectSeen("zero-transition-entry"); R.expectSeen("zero-emission-entry"); R.expectSeen("emission-1e-200"); R.expectSeen("with-break-points"); R.expectSeen("possible-data");
   R.note("segments start from pi.P as the code does (pi supplied by the harness is stationary, so pi.P = pi up to rounding); break points are ascending indices in 1..L-1 naming the first site of a new segment");
